@@ -54,6 +54,9 @@ def run(tier, replay=None):
             for k in range(300 if tier == "quick" else 20000):
                 cases.append({'id': iid, 'bin': b, 'input': inp.hex(), 'seed': 50000 + k, 'plant': 0, 'maxcycles': 400000, 'log': 0})
         res = rtllib.tb_run(tb, cases, d)
+        # the loader under several power-on states against BinFormat (what load() leaves in memory is the file, absent bytes zero)
+        import binlib
+        binlib.tb_loader_conformance(chk, tb, d, seeds=(1, 2, 3) if tier == "quick" else tuple(range(1, 13)))
         imgs = {iid: rtllib.image_words(b) for iid, b, inp, r0 in images}
         recs = []; history = []
         for c, r in zip(cases, res):
